@@ -136,11 +136,12 @@ class Tensor:
             return op.Identity(self)
         if not sliced_indices and len(scalar_indices) == 1:
             # Special case of indexing along a single axis: A[i], A[:, i], A[:, :, i] etc.
-            # promote integer input to tensor
+            # The scalar index is applied using Gather, together with the other
+            # tensor-valued indices below.
             axis = to_squeeze[0]
-            index_value = index[axis]
-            # use Gather to perform indexing
-            result = op.Gather(self, index_value, axis=axis)
+            non_scalar_indices.append((axis, index[axis]))
+            to_squeeze = []
+            result = self
         elif sliced_indices or scalar_indices:
             sliced_indices = sliced_indices + scalar_indices
             indices = np.array(sliced_indices, dtype=np.int64).T
@@ -153,7 +154,11 @@ class Tensor:
                 result = Tensor(np.squeeze(result.value, axis=tuple(to_squeeze)))
         else:
             result = self
-        for axis, value in non_scalar_indices:
+        # Apply Gathers from the last axis to the first, so that a Gather that removes
+        # its axis (scalar index) does not renumber the axes still to be indexed, and
+        # account for the axes already removed by the Squeeze above.
+        for axis, value in sorted(non_scalar_indices, key=lambda pair: pair[0], reverse=True):
+            axis -= sum(1 for squeezed in to_squeeze if squeezed < axis)
             result = op.Gather(result, value, axis=axis)
 
         return result
